@@ -1,7 +1,7 @@
 from _common import COMMON_NOTE
 
 META = {'title': 'Border pixels show the colour written to the ULA before the beam got there',
- 'lean_modules': ['ZxVerif.Props.C09'],
+ 'lean_modules': ['ZxVerif.Props.C09', 'ZxVerif.Props.C09Sys'],
  'modelled_code': ['rustzx-core/src/zx/video/border.rs',
                    'rustzx-core/src/zx/constants.rs (screen / border geometry)',
                    'rustzx-core/src/zx/machine/mod.rs (first pixel, line and frame lengths, contention_clocks)',
@@ -26,7 +26,11 @@ META = {'title': 'Border pixels show the colour written to the ULA before the be
                'every write list with non-decreasing clocks the completed frame shows at every one of the 76800 pixels '
                'exactly the colour of the last write whose beam position is <= the pixel (so also within the +-16 px '
                'tolerance), frames without writes repaint in the current colour, the reported colour is the low 3 bits '
-               'of the last ULA write or snapshot border over all operation lists. The model is tied to the Rust code on '
+               'of the last ULA write or snapshot border over all operation lists. Whole-program form (Props/C09Sys, '
+               'Z80 reference on a bus whose write_io is this model\'s, by the closure theorem over every instruction): '
+               'the ULA writes of every program reach set_border with non-decreasing clocks within a frame, the '
+               'border buffer invariant holds after every program, every completed frame shows what the program wrote, '
+               'the reported colour is the low 3 bits of its last ULA write. The model is tied to the Rust code on '
                'every run by a correspondence check on a real Emulator with recording frame buffers, the executable '
                'spec adjudicating.',
  'level_note': COMMON_NOTE + ' Partial: the correspondence is sampled (seeded), not exhaustive. The spec tolerance of '
